@@ -25,6 +25,12 @@ T = {
  "s118": (10, "more than 2^24 (sample, channel) values in one cell (hit counter kept in float32)", "Strengthened: long filterbank folds (32-64 channels, > 2^24 values per cell, sparse 0/1 data so that sums stay exact)."),
  "s119": (10, "mask_channels handed a buffer longer than nchans*nsamps, fewer flagged channels than threads (branch on get_num_threads)", "Strengthened: buffers with 1-37 spectra of live data beyond nsamps, single-flagged-channel masks."),
  "s120": (10, "two FilReaders with equal buffer sizes reduced from two threads; switch between one's read and its kernel call (process-wide buffer pool)", "Strengthened: a scheduling point in the read seam - right after read k of a call, another task (another beam, same shape) runs the same reduction to completion."),
+ "s121": (11, "an all-zero written block of >= st_blksize bytes (skipped with a seek) at the end of a product whose writer is never closed", "Strengthened: blank128 data in several-kB scenarios."),
+ "s122": (11, ">= 3 files, a non-last file longer than the first by <= 1e-5 of its length, a seek into its last bytes", "Caught as the checks stood (sparse multi-gigabyte sets); near-equal file lengths and boundary starts added."),
+ "s123": (11, ".dat and .fft sharing one .inf, spectrum longer than the series", "Caught as the checks stood (fft/inferred-count); a .dat companion under the same basename added."),
+ "s124": (11, "8-bit decimation with more than 2^32 summed per bin (uint32 scratch)", "Strengthened: rare decimation of 8.6e6 x 4 samples at the top of the range with tfactor ~4.3e6."),
+ "s125": (11, "band-pass of one block >= 8 Mi samples with a gulp that is no multiple of the tile", "Strengthened: rare blocks of ten million samples x channels with odd gulps."),
+ "s126": (11, "block >= 2^22, channel count not divisible by the numba thread count, masked trailing channel", "Strengthened: scenarios may run on 3-4 numba threads; rare large cleaning scenarios with 1009-1031 channels."),
 }
 for d in sorted(glob.glob("/verif/seeded/s*")):
     sid = os.path.basename(d)
